@@ -363,6 +363,8 @@ def rle_append_modify(rle, a_r) -> None:
     MODIFIES rle parameter contents. Returns None.
     """
     a, r = a_r
+    if not r:
+        return  # a zero-length run carries nothing (and would end rle_product early)
     if not rle or rle[-1][0] != a:
         rle.append((a, r))
         return
